@@ -197,6 +197,10 @@ func (g *gossipAnchors) rootClass(root ssa.Value, at ssa.Instruction, fs *Facts)
 		switch x := v.(type) {
 		case *ssa.Alloc:
 			return "fresh", "allocated here"
+		case *ssa.Call:
+			if _, _, ok := g.freshNodeFields(x, 0); ok {
+				return "fresh", "allocated by a constructor helper"
+			}
 		case *ssa.Parameter:
 			// helper taking the state object: classify at every call site
 			fn := x.Parent()
